@@ -255,7 +255,10 @@ public:
 	if (!x || !y) {
 	  return ghost_linear_constraint_t::get_true();
 	}
-        number_t offset = ref_cst.offset();
+        // If p == q + k then p and q point to the same memory object
+        // so the sizes of their memory objects are equal.
+        number_t offset = (kind == ghost_variable_kind::SIZE ? number_t(0)
+                                                             : ref_cst.offset());
         if (ref_cst.is_equality()) {
           return ghost_linear_constraint_t(*x == *y + offset);
         } else if (ref_cst.is_disequality()) {
@@ -807,7 +810,10 @@ public:
 	if (!x || !y) {
 	  return ghost_linear_constraint_t::get_true();
 	}	
-        number_t offset = ref_cst.offset();
+        // If p == q + k then p and q point to the same memory object
+        // so the sizes of their memory objects are equal.
+        number_t offset = (kind == ghost_variable_kind::SIZE ? number_t(0)
+                                                             : ref_cst.offset());
         if (ref_cst.is_equality()) {
           return ghost_linear_constraint_t(*x == *y + offset);
         } else if (ref_cst.is_disequality()) {
